@@ -120,7 +120,7 @@ def const_case(ctx, p, idx, combo, traces, corrupt=None):
     try:
         ys, grads, events, _ = H.traced_adjoint_run(sde, y0, ts, bm, D * TICK, method, am, loss_fn,
                                                     [tensors[k] for k in ginputs], TICK, V=V,
-                                                    adjoint_params=adjoint_params)
+                                                    adjoint_params=adjoint_params, renamed=(idx % 3 == 1))
     except Exception as e:                                        # an accepted configuration must run
         H.violation_once(ctx, dict(key, clause="accepted_runs"),
                          f"accepted configuration raised {type(e).__name__}: {str(e)[:200]} "
@@ -206,7 +206,8 @@ def lintime_case(ctx, p, idx, combo, traces, corrupt=None):
     key = dict(part="lintime", sde_type=ty, noise=noise, method=method, adjoint_method=am)
     try:
         ys, grads, events, _ = H.traced_adjoint_run(sde, y0, ts, bm, D * TICK, method, am, loss_fn,
-                                                    [y0, sde.a, sde.b, sde.u], TICK, V=V, tick_offset=toff)
+                                                    [y0, sde.a, sde.b, sde.u], TICK, V=V, tick_offset=toff,
+                                                    renamed=(idx % 2 == 1))
     except Exception as e:
         H.violation_once(ctx, dict(key, clause="accepted_runs"),
                          f"accepted configuration raised {type(e).__name__}: {str(e)[:200]} (D={D}, ts={tst})",
@@ -273,7 +274,7 @@ def smooth_forward_case(ctx, combo, idx, lay, bmkind, traces):
     key = dict(part="smooth", sde_type=ty, noise=noise, method=method, adjoint_method=am, bm=bmkind)
     try:
         ys, grads, events, _ = H.traced_adjoint_run(sde, y0, ts, bm, D * TICK, method, am, lambda y: (y * w).sum(),
-                                                    [y0] + params, TICK)
+                                                    [y0] + params, TICK, renamed=(idx % 3 == 2))
     except Exception as e:
         H.violation_once(ctx, dict(key, clause="accepted_runs"),
                          f"accepted configuration raised {type(e).__name__}: {str(e)[:200]} (D={D}, ts={tst})")
